@@ -56,7 +56,7 @@ func init() {
 		Rule: "values: every v below 2^22 (quick) / 2^30 (thorough) plus boundary set {2^k-1,2^k,2^k+1} and seeded 62-bit values, each through AppendVarint/SizeVarint/ConsumeVarint against an arithmetic RFC 9000 reference; " +
 			"decoder inputs: every byte string of length <= 2, every (first byte, length 0..9) with seeded tails, declared-length x remaining matrix for Consume{Varint,Uint8}Bytes. " +
 			"distinct_nontrivial = distinct (function, encoding class or outcome class, boundary/shape bucket) keys observed",
-		Floors:      []string{"varint_roundtrip_values", "decode_short_input_rejected", "declared_length_too_large_rejected", "bytes_roundtrip_ok", "decode_accepted", "large_strings_roundtrip_ok"},
+		Floors:      []string{"varint_roundtrip_values", "decode_short_input_rejected", "declared_length_too_large_rejected", "bytes_roundtrip_ok", "decode_accepted", "large_strings_roundtrip_ok", "results_for_empty_destination_are_the_callers"},
 		Assumptions: []string{"values above 2^62-1 are outside the statement (AppendVarint/SizeVarint panic there; logged, not judged)", "amd64: int is 64 bits"},
 		Run:         runC19,
 	})
@@ -475,6 +475,51 @@ func runC19(c *core.Ctx) {
 	lens := []int{0, 1, 62, 63, 64, 65, 254, 255, 256, 257, 16383, 16384, 16385, 70000}
 	for i := 0; i < c.Pick(200, 5000); i++ {
 		lens = append(lens, -1)
+	}
+	// what an Append* call returns for an EMPTY destination is the caller's: appending to it (into whatever capacity it
+	// has) must not change what later calls return, nor what earlier calls returned
+	if c.Next() {
+		var kept [][]byte
+		for v := uint64(0); v < 300; v++ {
+			r1 := quicwire.AppendVarint(nil, v)
+			kept = append(kept, r1)
+			r2 := quicwire.AppendVarint([]byte{}, v)
+			// the caller goes on using its slices
+			r1 = append(r1, 0xaa, 0xbb, 0xcc, 0xdd, 0xee, 0xff, 0x11, 0x22, 0x33)
+			r2 = append(r2[:len(r2):cap(r2)], bytes.Repeat([]byte{0x5a}, 70)...)
+			_ = r1
+			_ = r2
+		}
+		bad := false
+		for v := uint64(0); v < 300 && !bad; v++ {
+			c.Eval(1)
+			want := refVarintEnc(v)
+			if got := quicwire.AppendVarint(nil, v); !bytes.Equal(got, want) {
+				c.Violationf("AppendVarint:result-shared-with-later-calls", map[string]any{"value": v, "got": core.Hex(got), "want": core.Hex(want)}, "AppendVarint(nil, %d) returns %x after the caller appended to the results of earlier calls", v, got)
+				bad = true
+			}
+			if !bytes.Equal(kept[v][:len(want)], want) {
+				c.Violationf("AppendVarint:earlier-result-changed", map[string]any{"value": v}, "the slice AppendVarint(nil, %d) returned earlier changed when the caller appended to another result", v)
+				bad = true
+			}
+		}
+		for l := 0; l < 70 && !bad; l++ {
+			s1 := quicwire.AppendVarintBytes(nil, bytes.Repeat([]byte{byte(l)}, l))
+			s1 = append(s1, 0xde, 0xad)
+			s2 := quicwire.AppendUint8Bytes(nil, bytes.Repeat([]byte{byte(l)}, l))
+			s2 = append(s2, 0xbe, 0xef)
+		}
+		for l := 0; l < 70 && !bad; l++ {
+			c.Eval(1)
+			v := bytes.Repeat([]byte{byte(l)}, l)
+			if got := quicwire.AppendVarintBytes(nil, v); !bytes.Equal(got, append(refVarintEnc(uint64(l)), v...)) {
+				c.Violationf("AppendVarintBytes:result-shared-with-later-calls", map[string]any{"len": l}, "AppendVarintBytes(nil, %d bytes) is wrong after the caller appended to earlier results", l)
+				bad = true
+			}
+		}
+		if !bad {
+			c.Class("results_for_empty_destination_are_the_callers")
+		}
 	}
 	// large strings: around 2^20, 2^24 (16 MiB), 2^25, 2^26; the thorough tier goes to the 4/8-byte varint border at 2^30
 	big := []int{1 << 20, 1<<24 - 1, 1 << 24, 1<<24 + 1, 1<<25 + 3, 1 << 26}
